@@ -21,7 +21,7 @@ CHUNK = 128
 SHRINK_LISTS = ("ops",)
 PROBES = {"C15": ["refpoint-partial", "state_dict-roundtrip", "deepcopy-continue", "lti:broadcast-constants", "custom-forward", "ltv-property-only", "refpoint-same-state-new-time", "jump-back", "jump-forward", "jump-tensor", "reset-nonzero", "refpoint-default",
                   "refpoint-explicit", "read-after-call-since-refpoint", "read-after-jump-since-refpoint",
-                  "ltv-wrap", "batched-lti", "float-reftime", "call:keyword-arguments", "read:under-no_grad", "lti:systems-x-states-broadcast", "lti:set_refpoint", "call:same-tensor-objects-again"]}
+                  "ltv-wrap", "batched-lti", "float-reftime", "call:keyword-arguments", "read:under-no_grad", "lti:systems-x-states-broadcast", "lti:set_refpoint", "call:same-tensor-objects-again", "nested-system"]}
 TOL = 1e-10
 
 
@@ -261,6 +261,15 @@ def execute(plan, prop, out, tr):
                 res[k] = npd(M)
         return res
 
+    # a second system registered as a sub-module of the first (a plant with an actuator model, say): it has its own clock,
+    # which only its own calls, reset and assignment may move
+    inner, inner_clock = None, 0
+    if rng.H(s, "nested") % 4 == 0:
+        inner = pp.module.LTI(torch.eye(2, dtype=dt) * 0.5, torch.ones(2, 1, dtype=dt), torch.eye(2, dtype=dt), torch.zeros(2, 1, dtype=dt))
+        for _ in range(1 + rng.H(s, "nested-steps") % 3):
+            inner(torch.zeros(2, dtype=dt), torch.ones(1, dtype=dt)); inner_clock += 1
+        sysm.actuator = inner
+        out.probe("nested-system")
     clock = 0
     retired = []            # systems that were deep-copied away, with the clock value they must keep
     handed = []             # (tensor handed to the system as a time, its value then, op id): callers' tensors stay theirs
@@ -440,6 +449,12 @@ def execute(plan, prop, out, tr):
                 raise Violation("C15.mutation", "after op %s (#%d): the tensor passed as a time at op #%d now holds %s, the "
                                 "caller gave %s (the system clock aliases the caller's tensor)" % (op, i, oid, tt.tolist(), val.tolist()),
                                 i, "mutation:time-arg")
+        if inner is not None:
+            ist = getattr(sysm, "actuator", inner).systime
+            if int(ist) != inner_clock:
+                raise Violation("C15.clock", "after op %s (#%d) on the outer system, the time of the system registered inside it "
+                                "moved from %d to %d without any call, reset or assignment on it" % (op, i, inner_clock, int(ist)),
+                                i, "clock:nested")
         for osys, oclk in retired:
             if int(osys.systime) != oclk:
                 raise Violation("C15.clock", "after op %s (#%d) on a deep copy, the ORIGINAL system's time moved from %d to %d"
